@@ -1,6 +1,100 @@
 /-
-  C14 — property theorems (placeholder: no theorem yet, the property is not claimed).
+  C14 — Text drawn with a MonoTextStyle places, for the i-th character of a line, the glyph bitmap
+  that the font's glyph mapping designates for it in the cell at x offset i x (character width +
+  spacing) ... (properties.jsonl, C14).
+
+  Property theorems only (helper lemmas: EG/Lemmas/Font*.lean). Statements are about the model
+  `EG.Model.Font` (src/mono_font/{mod,mapping,mono_text_style,draw_target}.rs arm for arm) and the
+  tables `EG.Generated.FontTable` that tools/tr_fonts.py rewrites from the sources on every run.
+
+  Strength: [P] = proved for all inputs; [F] = decided by kernel evaluation on the generated tables
+  (292 fonts, 14 mappings) and lifted to all characters by [P] lemmas.
 -/
-import EG.Basic.Core
+import EG.Lemmas.FontTables
 namespace EG.C14
+open EG EG.Font EG.Generated
+
+/-! ### The glyph a mapping designates ([P], every mapping string) -/
+
+/-- `index c` is the first position of `c` in the list of mapped characters (`chars()`), or the
+replacement index if `c` is not mapped. -/
+theorem index_spec (m : StrMapping) (c : Nat) :
+    m.index c = if c ∈ expand m.data then (expand m.data).idxOf c else m.replacement :=
+  index_eq m c
+
+/-- A mapped character designates a glyph below the glyph count, the character listed there is the
+character itself, and no earlier position lists it. -/
+theorem index_of_mapped (m : StrMapping) (c : Nat) (h : c ∈ expand m.data) :
+    ∃ hlt : m.index c < (expand m.data).length,
+      (expand m.data)[m.index c] = c ∧ ∀ k (hk : k < m.index c), (expand m.data)[k]'(by omega) ≠ c :=
+  index_of_mem m c h
+
+example : (⟨[0, 97, 102, 0, 49, 52], 0⟩ : StrMapping).index 50 = 7 := by decide
+
+/-- Characters missing from the mapping (control characters, non-BMP, anything) get the replacement index. -/
+theorem index_of_unmapped (m : StrMapping) (c : Nat) (h : c ∉ expand m.data) :
+    m.index c = m.replacement :=
+  index_of_not_mem m c h
+
+example : (⟨[0, 97, 102, 0, 49, 52], 3⟩ : StrMapping).index 0x1F600 = 3 := by decide
+
+/-- Each mapped character has its own index: two different mapped characters never share one. -/
+theorem mapped_chars_own_index (m : StrMapping) (c₁ c₂ : Nat) (h₁ : c₁ ∈ expand m.data)
+    (h₂ : c₂ ∈ expand m.data) (h : m.index c₁ = m.index c₂) : c₁ = c₂ :=
+  index_injective_on_mapped m c₁ c₂ h₁ h₂ h
+
+/-- A `\0 s e` range that does not cross the surrogate gap stands for the characters `s..=e` in
+order: position `k` of the range holds `s + k` (consecutive characters, consecutive indices). -/
+theorem range_is_interval (s e : Nat) (h : s ≤ e) (hg : e ≤ 0xD7FF ∨ 0xD7FF < s) :
+    charRange s e = List.range' s (e + 1 - s) :=
+  charRange_plain s e h hg
+
+example : charRange 0x20 0x7f = List.range' 0x20 96 := range_is_interval _ _ (by decide) (by decide)
+
+/-! ### The 14 built-in mappings ([F] on the generated strings) -/
+
+/-- The translated tables have exactly the sizes counted in the source. -/
+theorem tables_complete : fontTable.length = fontsSeen ∧ mappingTable.length = mappingsSeen :=
+  ⟨fontTable_length, mappingTable_length⟩
+
+/-- Every built-in mapping lists no character twice: glyph indices `0 .. count-1` and mapped characters
+correspond one to one. -/
+theorem builtin_mappings_nodup : ∀ m ∈ mappingTable, (expand m.data).Nodup := fun m hm =>
+  expand_nodup_of_segsOK m.data (mappingTable_ok m hm).1
+
+theorem builtin_index_bijective : ∀ m ∈ mappingTable, ∀ k (hk : k < (expand m.data).length),
+    (mappingOfRec m).index ((expand m.data)[k]) = k := fun m hm k hk =>
+  index_getElem_of_nodup (mappingOfRec m) (builtin_mappings_nodup m hm) k hk
+
+/-- The replacement index of every built-in mapping designates an existing glyph, the glyph of `?`. -/
+theorem builtin_replacement_is_question_mark : ∀ m ∈ mappingTable,
+    m.replacement < (expand m.data).length ∧ (expand m.data)[m.replacement]? = some 63 := fun m hm =>
+  ⟨(mappingTable_ok m hm).2.1, (mappingTable_ok m hm).2.2.1⟩
+
+/-! ### The 292 built-in fonts ([F] on the generated table, lifted by [P] lemmas) -/
+
+/-- Glyph count <= glyphs per row x rows, positive character size, atlas file length = bytes per row
+(rows padded to whole bytes) x height. -/
+theorem builtin_fonts_atlas_fits : ∀ r ∈ fontTable, FontOK r := fontTable_ok
+
+/-- [P] For every font: a glyph index below `glyphs_per_row * rows` has its cell completely inside
+the font image. -/
+theorem cell_inside_image (f : MonoFont) (gi : Nat) (hcw : 0 < f.cw) (hch : 0 < f.ch)
+    (h : gi < (f.imgW / f.cw) * (f.imgH / f.ch)) : f.areaDrawable (f.glyphAreaOfIndex gi) = true :=
+  cell_inside_of_lt f gi hcw hch h
+
+example : (⟨64, 36, 4, 6, 0, 4, 6, 1, 3, 1, fun _ => 0⟩ : MonoFont).areaDrawable
+    ((⟨64, 36, 4, 6, 0, 4, 6, 1, 3, 1, fun _ => 0⟩ : MonoFont).glyphAreaOfIndex 95) = true := by decide
+
+/-- [P] Different glyph indices have different cells. -/
+theorem cells_distinct (f : MonoFont) (i j : Nat) (hcw : 0 < f.cw) (hch : 0 < f.ch) (hw : f.cw ≤ f.imgW)
+    (h : f.glyphAreaOfIndex i = f.glyphAreaOfIndex j) : i = j :=
+  glyphArea_injective f i j hcw hch hw h
+
+/-- For every built-in font and every character whatsoever (mapped, control, non-BMP) the cell of the
+designated glyph lies completely inside the font image. -/
+theorem builtin_cells_inside (r : FontRec) (hr : r ∈ fontTable) (c : Nat) :
+    (fontOfRec r).areaDrawable ((fontOfRec r).glyphArea c) = true :=
+  builtin_glyph_drawable r hr c
+
 end EG.C14
